@@ -1,0 +1,13 @@
+//go:build verif
+
+package transport
+
+import "net"
+
+// VerifNegotiate runs the real telnet option negotiation loop over the given connection, as Open
+// does after dialing. Verification instrumentation only (build tag "verif").
+func (t *Telnet) VerifNegotiate(c net.Conn, a *Args) error {
+	t.c = c
+
+	return t.handleControlChars(a)
+}
